@@ -592,6 +592,9 @@ RCP<const Basic> load_basic(Archive &ar, RCP<const And> &)
 {
     set_boolean container;
     ar(container);
+    if (container.size() < 2) {
+        throw SerializationError("invalid And");
+    }
     return make_rcp<const And>(std::move(container));
 }
 template <class Archive>
@@ -599,6 +602,9 @@ RCP<const Basic> load_basic(Archive &ar, RCP<const Or> &)
 {
     set_boolean container;
     ar(container);
+    if (container.size() < 2) {
+        throw SerializationError("invalid Or");
+    }
     return make_rcp<const Or>(std::move(container));
 }
 template <class Archive>
@@ -606,6 +612,9 @@ RCP<const Basic> load_basic(Archive &ar, RCP<const Xor> &)
 {
     vec_boolean container;
     ar(container);
+    if (container.size() < 2) {
+        throw SerializationError("invalid Xor");
+    }
     return make_rcp<const Xor>(std::move(container));
 }
 template <class Archive>
@@ -620,6 +629,9 @@ RCP<const Basic> load_basic(Archive &ar, RCP<const Piecewise> &)
 {
     PiecewiseVec vec;
     ar(vec);
+    if (vec.empty()) {
+        throw SerializationError("invalid Piecewise");
+    }
     return make_rcp<const Piecewise>(std::move(vec));
 }
 template <class Archive>
